@@ -19,6 +19,7 @@ type C20Case struct {
 	Target string   `json:"target"` // path, stream
 	Opts   drv.Opts `json:"opts"`
 	Ops    []string `json:"ops"`
+	Pre    bool     `json:"pre,omitempty"` // a longer file already exists at the target path
 }
 
 var c20Ops = []string{"put:a", "put:b", "has:a", "cb", "cb1", "close", "has:b"}
@@ -31,6 +32,13 @@ func runC20(c any, x *kit.Ctx) {
 	rpath := filepath.Join(x.Dir, "c20-direct.car")
 	os.Remove(dpath)
 	os.Remove(rpath)
+	var preBytes []byte
+	if cs.Pre && cs.Target == "path" {
+		preBytes = bytes.Repeat([]byte("old export "), 400)
+		if err := os.WriteFile(dpath, preBytes, 0o644); err != nil {
+			panic(err)
+		}
+	}
 	defer os.Remove(dpath)
 	defer os.Remove(rpath)
 	var dbuf, rbuf bytes.Buffer
@@ -167,7 +175,11 @@ func runC20(c any, x *kit.Ctx) {
 		// observers after every step
 		exists, got := output()
 		if !started {
-			if exists {
+			if preBytes != nil {
+				if !bytes.Equal(got, preBytes) {
+					fail(i, "eager-output", "the existing file at the target path was touched before the first Put")
+				}
+			} else if exists {
 				fail(i, "eager-output", "output exists (%d bytes) before the first Put", len(got))
 			}
 		} else {
@@ -219,6 +231,22 @@ func genC20(tier string, emit func(any)) {
 		}
 	}
 	rec(nil)
+	// the same sequences (one shorter) over a target path at which a longer file already exists
+	depth--
+	cfgs = []cfg{{"path", drv.Opts{}}, {"path", drv.Opts{V1: true}}}
+	var rec2 func(cur []string)
+	rec2 = func(cur []string) {
+		if len(cur) == depth {
+			for _, c := range cfgs {
+				emit(C20Case{Target: c.target, Opts: c.o, Ops: append([]string{}, cur...), Pre: true})
+			}
+			return
+		}
+		for _, op := range c20Ops {
+			rec2(append(cur, op))
+		}
+	}
+	rec2(nil)
 }
 
 func init() {
@@ -227,7 +255,7 @@ func init() {
 		Gen:    genC20,
 		Run:    runC20,
 		Decode: kit.DecodeAs[C20Case],
-		Rule: "every sequence of the depth bound over {Put a, Put b, Has a, Has b, OnPut(always), OnPut(once), Close} (all shorter sequences are checked as prefixes, observers after every step) x {path, stream} x {CARv2, padded CARv2/sorted index, CARv1, duplicates allowed, identity stored}; " +
+		Rule: "every sequence of the depth bound over {Put a, Put b, Has a, Has b, OnPut(always), OnPut(once), Close} (all shorter sequences are checked as prefixes, observers after every step) x {path, stream, path with a longer pre-existing file} x {CARv2, padded CARv2/sorted index, CARv1, duplicates allowed, identity stored}; " +
 			"differential oracle: a directly constructed storage.NewWritable driven with the same puts; non-trivial = sequence in which output started and a callback fired",
 		Bound: func(tier string) map[string]any {
 			if tier == "thorough" {
